@@ -256,7 +256,13 @@ def feature_orders(run):
              '=MATCH(2,A1:A3,1)', '=MATCH(2,A1:A3,0)', '=XMATCH(2,A1:A3,0,1)', '=XMATCH(2,A1:A3,0,-1)', '=VLOOKUP(2,A1:C3,2,TRUE)', '=VLOOKUP(2,A1:C3,2,FALSE)',
              '=DATE(2024,1,31)', '=DATE(2023,2,29)', '=EDATE(DATE(2024,1,31),1)', '=EDATE(DATE(2023,1,31),1)', '=SEARCH("P",D1)', '=SEARCH("p",D2)',
              '=COUNTIFS(D1:D3,"a*")', '=COUNTIFS(D1:D3,"*r")', '=SUMIFS(A1:A3,B1:B3,">4")', '=SUMIFS(A1:A3,B1:B3,"<6")', '=IFERROR(1/0,"e1")', '=IFERROR(1/1,"e2")',
-             '=TEXT(A1,"0")', '=VALUE("7")', '=A1&B1', '=A1=B1', '=A1<B1', '=NETWORKDAYS(DATE(2024,3,1),DATE(2024,3,31))', '=NETWORKDAYS(DATE(2024,3,31),DATE(2024,3,1))']
+             '=TEXT(A1,"0")', '=VALUE("7")', '=A1&B1', '=A1=B1', '=A1<B1', '=NETWORKDAYS(DATE(2024,3,1),DATE(2024,3,31))', '=NETWORKDAYS(DATE(2024,3,31),DATE(2024,3,1))',
+             # arguments that read alike as text but are different values (the number 3 and the text "3", TRUE and "TRUE", 1 and "1", 2 and 2.0):
+             # whatever a helper remembers about one of them must not answer for the other
+             '=COUNTIFS(A1:A3,"3")', '=COUNTIFS(A1:A3,3)', '=SUMIF(A1:A3,">3")', '=SUMIF(A1:A3,">2")', '=COUNTIFS(A1:A3,"<>3")', '=COUNTIFS(D1:D3,"3")', '=SUMIFS(A1:A3,A1:A3,2)',
+             '=SUMIFS(A1:A3,A1:A3,"2")', '=SUMIFS(A1:A3,A1:A3,2.0)', '=COUNTIFS(A1:A3,TRUE)', '=COUNTIFS(A1:A3,"TRUE")', '=COUNTIFS(A1:A3,1)', '=COUNTIFS(A1:A3,"1")',
+             '=VALUE("3")', '=VALUE("3.0")', '=LEFT("3",1)', '=IF("1"=1,1,2)', '=IF(1=1,1,2)', '=MATCH("2",A1:A3,0)', '=MATCH(2.0,A1:A3,0)', '=AVERAGEIFS(A1:A3,B1:B3,"5")',
+             '=AVERAGEIFS(A1:A3,B1:B3,5)', '=SEARCH("1",D1&"1")', '=SEARCH(1,D1&"1")', '=COUNTIFS(B1:B3,"2024-01-05")', '=COUNTIFS(B1:B3,DATE(2024,1,5))']
     n0 = max(r for (c, r) in feats if c == 5) + 1
     for i, f in enumerate(extra):
         feats[(5, n0 + i)] = f
